@@ -80,7 +80,7 @@ def run_c13(ctx):
                                     900 if ctx.quick else 5400)
         ctx.subruns.append({"engine": "layoutmon layout", "profile": profile, "shards": NS,
                             "random_histories_per_shard": count, "generate_every_nth_digest": every})
-        ctx.absorb_reports(reports, binary=ctx.last_binary, outs=ctx.last_outs)
+        ctx.absorb_reports(reports, binary=ctx.last_binary, outs=ctx.last_outs, label=profile)
     import props_gen
     props_gen.compile_half(ctx)
 
